@@ -144,6 +144,27 @@ RUNE_EDGES = [-(1 << 31), -70000, -2, -1, 0, 1, 0x41, 0x7F, 0x80, 0x7FF, 0x800, 
 INT_EDGES = RUNE_EDGES + [1 << 31, (1 << 32) - 1, 1 << 32, (1 << 32) + 65, (1 << 32) + 0x20AC, (1 << 63) - 1, -(1 << 63)]
 
 
+ORDER_TAILS = [b"", b"\x00", b"\x01", b"a", b"b", b"ab", b"\x7f", b"\x80", b"\xff", b"\x00a", b"\x00b", b"z\x00y", b"\xc3\xa9"]
+# operand pairs for < and == that separate byte-wise comparison of the whole Go string from C-string / signed-char
+# shortcuts: equal through a NUL and different after it; differing only in bytes >= 0x80; proper prefixes (also by a NUL)
+ORDER_PAIRS = [(b"a\x00b", b"a\x00c"), (b"a\x00c", b"a\x00b"), (b"\x00a", b"\x00b"), (b"\x00", b"\x00\x00"), (b"", b"\x00"),
+               (b"a", b"a\x00"), (b"a\x00", b"a\x00\x00"), (b"ab\x00x", b"ab\x00y"), (b"ab\x00x", b"ab\x00xy"), (b"a\x00b\x00c", b"a\x00b\x00d"),
+               (b"a\x00\x80", b"a\x00\x7f"), (b"\x00\xff", b"\x00\x01"), (b"x\x00", b"x\x00\x00a"), (b"a\x00b", b"a\x00b"),
+               (b"\x7f", b"\x80"), (b"\x80", b"\xff"), (b"a\x7f", b"a\x80"), (b"a\xff", b"a\x01"), (b"\xc3\xa9", b"\xc3\xa8"), (b"\xc3\xa9", b"e"),
+               (b"\xff", b"\x00"), (b"\x80a", b"\x80b"), (b"\xe4\xb8\x96", b"\xe4\xb8\x97"), (b"\xf0\x9f\x98\x80", b"\xef\xbf\xbd"),
+               (b"", b"a"), (b"a", b"ab"), (b"ab", b"abc"), (b"abc", b"abd"), (b"abc", b"ab\xff"), (b"", b""), (b"abc", b"abc"),
+               (b"a" * 40 + b"\x00" + b"b", b"a" * 40 + b"\x00" + b"c"), (b"a" * 40, b"a" * 41)]
+
+
+def order_pair_lines():
+    ls = []
+    for a, b in ORDER_PAIRS:
+        for x, y in ((a, b), (b, a)):
+            ls.append("less %s %s" % (hexs(x), hexs(y)))
+            ls.append("eq %s %s" % (hexs(x), hexs(y)))
+    return ls
+
+
 def rbytes(rng, maxpieces=6):
     n = rng.choice([0, 1, 1, 2, 3, maxpieces])
     out = b""
@@ -176,11 +197,19 @@ def gen_string_line(rng):
             b = a + rbytes(rng, 2)
         elif r < 0.6:
             b = a[:rng.randint(0, len(a))]
-        elif r < 0.8 and a:
+        elif r < 0.7 and a:
             p = rng.randrange(len(a))
             b = a[:p] + bytes([(a[p] + rng.choice([1, 255, 128])) % 256]) + a[p + 1:]
+        elif r < 0.85:
+            # agree up to and including a NUL byte (or a byte >= 0x80), differ afterwards: C string functions stop at
+            # the NUL, signed-char comparisons order the high bytes wrongly
+            pre = rbytes(rng, 3) + rng.choice([b"\x00", b"\x00\x00", b"a\x00", b"\x80", b"\xff\x00"])
+            x, y = rng.choice(ORDER_TAILS), rng.choice(ORDER_TAILS)
+            a, b = pre + x, pre + y
         else:
             b = rbytes(rng)
+        if rng.random() < 0.5:
+            a, b = b, a
         return "%s %s %s" % ("less" if k == 2 else "eq", hexs(a), hexs(b))
     if k == 4:
         return "s2b " + hexs(rbytes(rng))
@@ -514,7 +543,7 @@ def run(ctx, args):
         scripts.append(("gen-%d" % i, s))
         total += len(s)
         i += 1
-    string_lines = [gen_string_line(rng) for _ in range(n_string_lines)]
+    string_lines = order_pair_lines() + [gen_string_line(rng) for _ in range(n_string_lines)]
     nsc_lines = []
     for nl, oc in [(0, 0), (1, 0), (5, 2), (5, 4), (255, 128), (256, 255), (257, 256), (300, 256), (512, 256), (513, 256),
                    (1000, 999), (100000, 99999), (1 << 30, (1 << 30) - 1), ((1 << 40) + 7, 1 << 40), ((1 << 60) + 5, 1 << 60)]:
@@ -730,7 +759,8 @@ def process(ctx, harness, modeld, cfg_line, scripts, string_lines, nsc_lines, zf
         lst = sorted(string_fails[op], key=lambda x: len(x[0]))
         l, rr, got, rf = lst[0]
         ctx.report(label + "string:%s:%s" % (op, l), "%s gives %s, Go: %s (%d failing lines of this operation; shortest)" % (l, got, rf, len(lst)),
-                   {"line": l, "real": rr, "go": rf, "failing_lines_of_this_operation": len(lst)})
+                   {"line": l, "operands_hex": l.split()[1:], "real": rr, "go": rf, "failing_lines_of_this_operation": len(lst),
+                    "other_failing_lines": [x[0] for x in lst[1:12]]})
     if growth_mismatch:
         ctx.log("note: the working tree's nextslicecap differs from the model's on %d inputs (Go does not fix the growth policy; "
                 "nextslicecap_ge is then a theorem about the model only — result >= newLen was checked on every sampled input)" % growth_mismatch)
